@@ -1,5 +1,6 @@
 import Qryn.Proofs.ReadCode
 import Qryn.Proofs.ReadPipe
+import Qryn.Proofs.ReadPipeH
 import Qryn.ReadSide.Census
 /-! # C12 — no query can crash, hang or leak work on the read side   (PARTIAL: bookkeeping proved, runtime explored)
 
@@ -354,6 +355,73 @@ theorem pipeline_without_drain_deadlocks :
     have := hF.1
     simp [S0, start] at this
 
+/-! ## the pipeline with its consumer: no producer stays blocked when the handler stops reading -/
+
+/-- **no_blocked_sender.** The handler is part of the transition system (`PipelineH.lean`): it may leave its copy loop
+    at ANY point (`stop`: client gone, write error, limit reached), the request context may be cancelled at any point
+    (`envCancel`). For every pipeline length, every result set (batches with arbitrary futures), every closing output
+    and every interleaving: under the code's convention — the handler's code keeps the channel drained
+    (`onStop = drain`: qryn, by `handler_loops_read_to_close`), OR it cancels a context on which every producer's send
+    selects (`onStop = cancel ∧ sel`) — and with every stage keeping its input consumed (`consumers_drain`),
+    (a) every move strictly decreases `measure`: every schedule is finite;
+    (b) a state that is not final has a move: no send blocks for ever, wherever the handler stopped;
+    (c) a schedule can only end in the final state — scanner, every stage and the exporter returned, every channel
+        closed, the handler out of its loop — and that state is reachable from every reachable state. -/
+theorem no_blocked_sender (n : Nat) (hn : 0 < n) (rows : List Item) (flush : Nat → List Item)
+    (c : OnStop) (sel : Bool) (hconv : c = .drain ∨ (c = .cancel ∧ sel = true)) (S : HSys)
+    (hr : HRun (hstart n rows flush (fun _ => true) c sel) S) :
+    (∀ S', HStep S S' → S'.measure < S.measure) ∧
+    S.measure ≤ (hstart n rows flush (fun _ => true) c sel).measure ∧
+    (¬ HFinal S → ∃ S', HStep S S') ∧
+    ((∀ S', ¬ HStep S S') → HFinal S) ∧
+    (∃ S', HRun S S' ∧ HFinal S') := by
+  have hI : HInv S := hrun_inv (hstart_inv n hn rows flush c sel) hr
+  have hc : Convention S := by
+    have := hrun_code hr
+    unfold Convention
+    rw [this.1, this.2]
+    exact hconv
+  refine ⟨fun S' h => hstep_measure h, hrun_measure hr, fun hF => hprogress hI hc hF, ?_, hreaches_final S hI hc⟩
+  intro hstuck
+  by_cases hF : HFinal S
+  · exact hF
+  · obtain ⟨S', hs⟩ := hprogress hI hc hF
+    exact absurd hs (hstuck S')
+
+/-- **abandoned_exporter_never_returns.** The counter-pattern in general: once the handler has left its loop, its
+    code neither drains nor do the producers watch the context (`onStop = abandon`, `sel = false`: seeded change
+    C12-1 on today's producers), and the exporter has a chunk to hand over, then in EVERY continuation, whatever the
+    pipeline length and the schedule, the exporter still holds that chunk: it never returns, its deferred drain never
+    runs, the final state is never reached. -/
+theorem abandoned_exporter_never_returns (S S' : HSys) (hA : Abandoned S) (hr : HRun S S') :
+    (S'.sys.stg (S'.sys.n - 1)).buf ≠ [] ∧ ¬ HFinal S' :=
+  ⟨(hrun_abandoned hA hr).pending, abandoned_not_final (hrun_abandoned hA hr)⟩
+
+/-- the full-strength statement for a handler that simply returns early — false -/
+def early_return_terminates_full : Prop :=
+  ∀ (n : Nat) (rows : List Item) (flush : Nat → List Item) (S : HSys), 0 < n →
+    HRun (hstart n rows flush (fun _ => true) .abandon false) S → ∃ S', HRun S S' ∧ HFinal S'
+
+/-- **early_return_terminates_counterexample** (seeded change C12-1: `for str := range ch { if r.Context().Err() != nil
+    { return } … }`): one stage, one row that makes the exporter produce one chunk; the handler leaves before the chunk
+    is handed over. The exporter is blocked in `res <- chunk` for ever: no continuation reaches the final state. -/
+theorem early_return_terminates_counterexample : ¬ early_return_terminates_full := by
+  intro hfull
+  let row : Item := .mk false [.mk false []]
+  let S0 := hstart 1 [row] (fun _ => []) (fun _ => true) .abandon false
+  let S1 : HSys := { S0 with reading := false, ctxDone := S0.ctxDone || (S0.onStop == OnStop.cancel) }
+  let T : Sys := { S1.sys with src := [], stg := upd S1.sys.stg 0 ((S1.sys.stg 0).recv row) }
+  have st1 : HStep S0 S1 := HStep.stop S0 rfl
+  have st2 : HStep S1 { S1 with sys := T } :=
+    HStep.work S1 T (Step.srcSend S1.sys row [] rfl (by decide) ⟨rfl, rfl, Or.inl rfl⟩)
+      (fun ⟨it, h⟩ => by simp [S1, S0, hstart, start] at h)
+  have hrun : HRun S0 { S1 with sys := T } := HRun.step st1 (HRun.step st2 (HRun.refl _))
+  have hA : Abandoned { S1 with sys := T } := by
+    refine ⟨rfl, rfl, rfl, by decide, ?_⟩
+    simp [T, S1, S0, hstart, start, upd, Stg.recv, row]
+  obtain ⟨S', hr', hF⟩ := hfull 1 [row] (fun _ => []) _ (by decide) hrun
+  exact (abandoned_exporter_never_returns _ S' hA hr').2 hF
+
 -- non-vacuity: the hypotheses of the theorems above are satisfiable and the guard lets ordinary requests through
 example : fixGuard ReadSide.maxFixPeriodPoints ⟨1700000000000000000, 1700003600000000000, 15000000000, 60000000000⟩ = true := by decide
 example : fixProcess FixCode.fixed ReadSide.maxFixPeriodPoints ⟨1700000000000000000, 1700000060000000000, 30000000000, 60000000000⟩
@@ -363,5 +431,9 @@ example : lokiQueryRange code ⟨false, .ok 1700000000000000000, .ok 17000036000
 example : limitRun 5 0 [3, 3, 3] = .ok ([3, 2], true) := by decide
 example : scanLoop 3 0 (List.replicate 7 RowEv.row) = .ok [3, 3, 2] := by decide
 example : Inv (start 3 [.mk false [.mk false []]] (fun _ => []) (fun _ => true)) := start_inv 3 (by decide) _ _
+-- the handler can leave before anything was sent, under both conventions; the hypotheses of `no_blocked_sender` hold at the start
+example : ∃ S', HStep (hstart 2 [.mk false [.mk false []]] (fun _ => []) (fun _ => true) .drain false) S' ∧ S'.reading = false :=
+  ⟨_, HStep.stop _ rfl, rfl⟩
+example : HInv (hstart 2 [.mk true []] (fun _ => []) (fun _ => true) .cancel true) := hstart_inv 2 (by decide) _ _ _ _
 
 end Qryn.C12
